@@ -514,6 +514,81 @@ func c15Families(tier string) []explore.Family {
 			}
 		}})
 	}
+	// sort by a key whose NAME is also a built-in property of maps and arrays (size, first, last): "entries lacking
+	// the key first" is about the key, not about what x.size would say for a map without such a key
+	bkKeys := []string{"size", "first", "last", "k"}
+	bkLen := 3
+	if tier == "thorough" {
+		bkLen = 4
+	}
+	const bkElems = 5
+	fams = append(fams, explore.Family{Name: "sort-by-key-named-like-a-property", Count: seqCount(bkElems, bkLen) * int64(len(bkKeys)), Run: func(i int64, r *explore.Rec) {
+		K := bkKeys[i%int64(len(bkKeys))]
+		idx := seqAt(bkElems, i/int64(len(bkKeys)))
+		mk := func(j, pos int) map[string]any {
+			id := fmt.Sprintf("%d.%d", j, pos) // element kind . position in the input
+			switch j {
+			case 0:
+				return map[string]any{K: 2, "id": id}
+			case 1:
+				return map[string]any{K: 1, "id": id, "z": 0}
+			case 2:
+				return map[string]any{"id": id, "p": 1, "q": 2, "r": 3, "s": 4} // lacks the key, has five entries
+			case 3:
+				return map[string]any{"id": id} // lacks the key, one entry
+			}
+			return map[string]any{K: nil, "id": id}
+		}
+		arr := make([]any, len(idx))
+		for pos, j := range idx {
+			arr[pos] = mk(j, pos)
+		}
+		src := `{% assign r = a | sort: "` + K + `" %}{% for x in r %}{{ x.id }},{% endfor %}`
+		r.Eval()
+		r.Transition()
+		r.Trace()
+		o := c15Render(src, map[string]any{"a": arr})
+		desc := func() any {
+			return map[string]any{"template": src, "elements(kind.position)": fmt.Sprint(idx), "key": K}
+		}
+		if o.Panic != nil || o.Err != nil {
+			r.Violation("fails:sort-by-builtin-named-key", desc(), "output", o.String())
+			return
+		}
+		ids := strings.Split(strings.TrimSuffix(o.Out, ","), ",")
+		if o.Out == "" {
+			ids = nil
+		}
+		seen := map[string]bool{}
+		keyed, lastKey := false, 0
+		bad := ""
+		for _, id := range ids {
+			if seen[id] || len(id) < 3 {
+				bad = "not a permutation"
+			}
+			seen[id] = true
+			switch id[0] {
+			case '2', '3': // lacking the key
+				if keyed {
+					bad = "an entry lacking the key comes after an entry that has it"
+				}
+			case '0', '1':
+				kv := map[byte]int{'0': 2, '1': 1}[id[0]]
+				if keyed && kv < lastKey {
+					bad = "entries not ascending by key"
+				}
+				keyed, lastKey = true, kv
+			}
+		}
+		if len(ids) != len(idx) {
+			bad = "not a permutation"
+		}
+		r.Class("sort-builtin-key/" + K)
+		if bad != "" {
+			r.Violation("wrong:sort-by-key-named-like-a-property", desc(), "a permutation, entries lacking the key first, then ascending by key", bad+": "+o.Out)
+		}
+	}})
+
 	// ordered maps (yaml.MapSlice) are accepted as arrays. WHICH array an ordered map stands for (its values, or
 	// its [key, value] pairs) is not stated, so the law is representation-agnostic: every filter must see the same
 	// array view of it. With e = a | reverse | reverse (the view, materialised as a generic slice by the
